@@ -245,11 +245,11 @@ def gen(tier, rng):
                 for _ in range(2 if quick else 8):
                     yield [rand_cfg(rng, kind, rows, cols, flags), rng.randrange(64),
                            rng.choice([1, 2, 3]), rng.getrandbits(30)]
-    n_rand = 1600 if quick else 45000
+    n_rand = 9000 if quick else 60000
     for _ in range(n_rand):
         yield [rand_cfg(rng), rng.randrange(64), rng.choice([1, 1, 2, 3, 4]), rng.getrandbits(30)]
     # mazes on the larger grids, clustered / scattered, few fixed agents
-    for _ in range(200 if quick else 4000):
+    for _ in range(1500 if quick else 12000):
         cfg = rand_cfg(rng, rng.choice([1, 2, 2]), rng.randint(4, 8), rng.randint(4, 8),
                        [rng.randint(0, 1), rng.randint(0, 1), rng.choice([0, 1, 1]), rng.choice([0, 1, 1])])
         yield [cfg, rng.randrange(64), rng.choice([1, 2]), rng.getrandbits(30)]
@@ -274,15 +274,11 @@ def classify(inp, out):
     kinds = "".join(str(r[0]) for r in o) if o and o[0] != -1 else "x"
     fl = cfg[5]
     tags = [KINDS[cfg[0]][:6]]
-    tags.append("res" + ("Ok" if set(kinds) <= {"0"} else "Rej" if "1" in kinds else "Run" if "2" in kinds else "Oth"))
+    tags.append("Ok" if set(kinds) <= {"0"} else "Reject" if "1" in kinds else "Runtime" if "2" in kinds else "Other")
     if fl[0]:
         tags.append("noov")
-    if fl[1]:
-        tags.append("rand")
-    if cfg[0] and fl[2]:
-        tags.append("clu")
-    if cfg[0] and fl[3]:
-        tags.append("sca")
+    if cfg[0] and (fl[2] or fl[3]):
+        tags.append("sorted")
     if any(len(a) == 3 for a in cfg[4]):
         tags.append("init")
     if len(cfg[4]) >= cfg[1] * cfg[2]:
@@ -317,8 +313,61 @@ def repro(inp):
             "positions, maze, key order]]" % sx.dumps(inp))
 
 
+# ------------------------------------------------------------------------------ generate_maze alone
+
+def impl_maze(inp):
+    import abmarl.sim.gridworld.utils as gu
+    rows, cols, start, seed = inp
+    chosen = []
+    o_randint = np.random.randint
+
+    def spy_randint(low, high=None, *args, **k):
+        res = o_randint(low, high, *args, **k)
+        fr = sys._getframe(1)
+        walls = fr.f_locals["unvisited_walls"]
+        if not (fr.f_code.co_name == "generate_maze" and low == 0 and 0 <= int(res) < len(walls)):
+            raise Inadmissible("randint maze")
+        c = walls[int(res)]
+        chosen.append([int(c[0]), int(c[1])])
+        return res
+
+    np.random.seed(seed % (2 ** 32))
+    np.random.randint = spy_randint
+    try:
+        m = gu.generate_maze(rows, cols, np.array(start))
+    finally:
+        np.random.randint = o_randint
+    return [chosen, [0, [[int(v) for v in row] for row in m], 1]]
+
+
+def split_maze(inp, out):
+    if out[0] == -1:
+        return [inp[0], inp[1], inp[2], []], out
+    return [inp[0], inp[1], inp[2], out[0]], out[1]
+
+
+def gen_maze(tier, rng):
+    quick = tier != "thorough"
+    for rows in range(1, 9):
+        for cols in range(1, 9):
+            starts = [(r, c) for r in range(rows) for c in range(cols)]
+            if len(starts) > 6:
+                starts = rng.sample(starts, 6) + [(0, 0), (rows - 1, cols - 1)]
+            for st in starts:
+                for _ in range(2 if quick else 12):
+                    yield [rows, cols, list(st), rng.getrandbits(30)]
+    for _ in range(150 if quick else 3000):
+        rows, cols = rng.randint(6, 12), rng.randint(6, 12)
+        yield [rows, cols, [rng.randrange(rows), rng.randrange(cols)], rng.getrandbits(30)]
+
+
 COMPONENTS = [
     Component(1301, "placement", impl, gen, chk=1302, nontrivial=nontrivial, classify=classify,
               shrink=shrink, repro=repro),
+    Component(1303, "generate_maze", impl_maze, gen_maze, chk=1304,
+              nontrivial=lambda i, o: i[0] * i[1] > 2,
+              classify=lambda i, o: "maze/%s" % ("1xN" if min(i[0], i[1]) == 1 else
+                                                 "small" if i[0] * i[1] <= 16 else "large")),
 ]
 COMPONENTS[0].split = split
+COMPONENTS[1].split = split_maze
